@@ -41,15 +41,17 @@ fn strip(g: &MGraph, edges_only: bool) -> MGraph {
 }
 
 pub fn case(tape: &[u32]) -> CaseOutcome {
-    let mut t = Tape::new(tape);
+    let (aux, main) = split_tape(tape);
+    let mut a = Tape::new(&aux);
+    let mut t = Tape::new(&main);
     let mut cfg = GenCfg::fragment();
-    cfg.collisions = t.chance(1, 2);
+    cfg.collisions = a.chance(1, 2);
     cfg.prints = false;
-    cfg.fault = t.chance(1, 10);
+    cfg.fault = a.chance(1, 10);
     cfg.max_stanzas = 5;
+    let source = pysrc::gen_source(&mut a);
     let program = make_program(&mut t, &cfg);
     let dsl = &program.printed.text;
-    let source = pysrc::gen_source(&mut t);
     let file = match load_valid("C15", dsl) {
         Ok(f) => f,
         Err(o) => return o,
@@ -178,7 +180,7 @@ pub fn case(tape: &[u32]) -> CaseOutcome {
 }
 
 pub fn spec(tier: &str) -> Spec {
-    let mut s = Spec::new("C15", tier, 3_000, 40_000, 700);
+    let mut s = Spec::new("C15", tier, 3_000, 40_000, 1200);
     s.rule = "accepted generated programs (half of them collision-heavy, so one edge is created by several statements), one tree each, executed in {strict, lazy} x {no debug attributes, debug attributes under three fresh names}. Oracle: same Ok/Err with and without; removing the three attributes gives exactly the plain graph (same numbering); every node created by a `node` statement carries the variable's text, `line r+1 column c+1` of that variable as the harness's printer placed it, and the syntax node the stanza matched (from the reference interpreter's record of origins, compared as whole graphs up to renumbering); every edge carries the location of one of the `edge` statements that the reference interpreter saw create it. evaluations = executions. Non-trivial: a successful run with an edge created by >=2 distinct statements, or >=2 `node` statements in >=2 stanzas. Distinct = fingerprint of (DSL text, source).".into();
     s.assumptions = vec![
         "when the debug graph is only equal to the expected one up to renumbering, an edge location that belongs to another executed edge statement is counted inconclusive (automorphic nodes may be swapped)".into(),
